@@ -260,7 +260,12 @@ func TestC15Acceptance(t *testing.T) {
 	rapid.Check(t, func(rt *rapid.T) {
 		memo := genMemoSeed(rt, w)
 		c := caseC15Memo{}
-		switch pick(rt, "class", []string{"mutated", "mutated", "mutated", "targeted", "targeted", "numeric-enum", "valid", "fuzzed"}) {
+		switch pick(rt, "class", []string{"mutated", "mutated", "mutated", "targeted", "targeted", "numeric-enum", "valid", "fuzzed", "hostile-actions"}) {
+		case "hostile-actions":
+			tree, _ := kit.ParseJSON(memo)
+			kit.HostileActionList(rt, tree)
+			rec.Label("mutation", "hostile-action-list")
+			c.Memo = tree.String()
 		case "mutated":
 			tree, _ := kit.ParseJSON(memo)
 			n := rapid.IntRange(1, 2).Draw(rt, "n")
